@@ -33,6 +33,8 @@ pub enum Op {
     ScheduleAt { e: String, c: Ctx, date: (i32, u32, u32) },
     /// evaluate on a clone and on the original; both must agree
     CloneEval { e: String, c: Ctx, t: i64 },
+    /// one value evaluated at t1, then at t2, then at t1 again (state carried inside a value shows as a different first answer)
+    Revisit { e: String, c: Ctx, t1: i64, t2: i64 },
     /// one parsed expression (one Arc) under two contexts: evaluate under c1, under c2, under c1 again
     Recontext { e: String, c1: Ctx, c2: Ctx, t: i64 },
     /// state + next_change on the shared (Arc'd, built by the main thread) value #i
@@ -100,6 +102,21 @@ fn gen_ctx(rng: &mut Rng, p: &Pools, coords_ok: bool) -> Ctx {
 }
 
 fn gen_expr(rng: &mut Rng, p: &Pools, c: &Ctx) -> String {
+    gen_expr_opt(rng, p, c, true)
+}
+
+/// `may_unwind`: false for values that are shared between threads or handed over a channel (an unwinding
+/// sender would leave its receiver waiting: that is the harness's own protocol, not the library's)
+fn gen_expr_opt(rng: &mut Rng, p: &Pools, c: &Ctx, may_unwind: bool) -> String {
+    if !may_unwind {
+        let hol = matches!(c, Ctx::Holidays(_) | Ctx::TzHolidays(..) | Ctx::Coords(..));
+        return if hol && rng.chance(1, 2) { rng.pick(&p.holiday_exprs).clone() } else { rng.pick(&p.exprs).clone() };
+    }
+    // fault injection: one evaluation in forty is of an expression whose evaluation unwinds half-way
+    // (the caller catches the panic, as an embedding application or the Python binding would)
+    if !p.panicking_exprs.is_empty() && rng.chance(1, 40) {
+        return rng.pick(&p.panicking_exprs).clone();
+    }
     // holiday contexts get holiday expressions more often
     let hol = matches!(c, Ctx::Holidays(_) | Ctx::TzHolidays(..) | Ctx::Coords(..));
     let sun = matches!(c, Ctx::TzCoords(..) | Ctx::Coords(..));
@@ -131,7 +148,10 @@ fn gen_op(rng: &mut Rng, p: &Pools, coords_ok: bool, n_prebuilt: u32) -> Op {
             Op::ScheduleAt { e, c, date: (d.year(), d.month(), d.day()) }
         }
         10 | 11 => {
-            if rng.chance(1, 3) {
+            if rng.chance(1, 4) {
+                let t2 = *rng.pick(&p.instants);
+                Op::Revisit { e, c, t1: t, t2 }
+            } else if rng.chance(1, 3) {
                 Op::CloneEval { e, c, t }
             } else {
                 // the second context often differs from the first in one component only
@@ -195,7 +215,7 @@ pub fn generate(rng: &mut Rng, p: &Pools, mode: &str) -> Workload {
     let prebuilt: Vec<(String, Ctx)> = (0..n_prebuilt)
         .map(|_| {
             let c = gen_ctx(rng, p, false);
-            (gen_expr(rng, p, &c), c)
+            (gen_expr_opt(rng, p, &c, false), c)
         })
         .collect();
     let mut threads: Vec<Vec<Op>> = Vec::new();
@@ -278,7 +298,7 @@ pub fn generate(rng: &mut Rng, p: &Pools, mode: &str) -> Workload {
             let a = rng.usize_below(n_threads - 1);
             let b = a + 1 + rng.usize_below(n_threads - 1 - a);
             let c = gen_ctx(rng, p, false);
-            let e = gen_expr(rng, p, &c);
+            let e = gen_expr_opt(rng, p, &c, false);
             let t = *rng.pick(&p.instants);
             let k = rng.below(5) as u32;
             let n = rng.range(1, 8) as u32;
